@@ -344,39 +344,36 @@ def concretize(I, v, limit=64):
     return v
 
 
-_ENUM_CACHE = {}
-
-
 def _enumerate_values(I, v, limit):
-    # deterministic across re-executions: cached by the decision-log position
-    key = (tuple((tuple(a), i) for a, i in I.log[:I.pos]), I.pos, "enum")
-    if key in _ENUM_CACHE:
-        return _ENUM_CACHE[key]
-    s = I.solver
-    s.push()
-    vals = []
-    try:
-        while True:
-            r = str(s.check())
-            if r == "unknown":
-                raise UnsupportedConstruct("cannot enumerate the values of a symbolic key (solver unknown)")
-            if r == "unsat":
-                break
-            m = s.model()
-            if isinstance(v, SymStr):
-                x = v.model_str(m)
-                s.add(Not(bterm(I.eq(v, x))) if not isinstance(I.eq(v, x), bool) else z3.BoolVal(False))
-            else:
-                x = m.eval(v.t, model_completion=True).as_long()
-                s.add(v.t != x)
-            vals.append(x)
-            if len(vals) > limit:
-                raise UnsupportedConstruct("a symbolic value used as a container key has more than %d possible values" % limit)
-    finally:
-        s.pop()
-    vals.sort()
-    _ENUM_CACHE[key] = vals
-    return vals
+    """all values the symbolic str/int can take on this path (memoised so that prefix replays agree)"""
+    def enum():
+        s = I.solver
+        s.push()
+        vals = []
+        try:
+            while True:
+                r = str(s.check())
+                I.stats.solver_calls += 1
+                if r == "unknown":
+                    raise UnsupportedConstruct("cannot enumerate the values of a symbolic key (solver unknown)")
+                if r == "unsat":
+                    break
+                m = s.model()
+                if isinstance(v, SymStr):
+                    x = v.model_str(m)
+                    e = I.eq(v, x)
+                    s.add(Not(bterm(e)) if not isinstance(e, bool) else z3.BoolVal(not e))
+                else:
+                    x = m.eval(v.t, model_completion=True).as_long()
+                    s.add(v.t != x)
+                vals.append(x)
+                if len(vals) > limit:
+                    raise UnsupportedConstruct("a symbolic value used as a container key has more than %d possible values" % limit)
+        finally:
+            s.pop()
+        vals.sort()
+        return vals
+    return I.oracle(enum)
 
 
 def dict_lookup(I, d, k, default, raise_):
